@@ -1,14 +1,18 @@
 """C25 Modifier blocks lower to the matching modifier operations.
 
 Domain.  One `@guppy` function
-    main(q0..q5: qubit, cs: array[qubit,2], ds: array[qubit,3], es: array[qubit,2], n: nat, m: nat, x: float)
+    main(q0..q5: qubit, cs: array[qubit,2], ds: array[qubit,3], es: array[qubit,2], n: nat, m: nat, x: float,
+         ks: array[nat,2], fs: array[float,2])
 whose straight-line body mixes calls of declared unitary gates
     u(q) v(q) w(q,r) rn(q, k: nat) rf(q, x: float) a2(qs: array[qubit,2]) a3(qs: array[qubit,3])
+    rk(q, ks) rnk(q, k: nat, ks) rkf(q, fs, x: float) rkk(q, fs, ks)       (ks / fs: classical arrays)
 with 1-2 `with` stacks.  A stack carries 1-4 modifiers in total, split over 1-3 nested `with`
 statements (comma form inside one statement, e.g. `with control(q0), dagger:` / nested blocks /
 both); modifiers are `dagger`, `dagger()`, `control(q..)` with 1-3 qubits, `control(array)`,
 `power(<literal>)`, `power(n|m)`; repetitions allowed.  Bodies call the gates on captured qubits,
-captured arrays and captured classical values (nat / float variables and literals), may contain
+captured arrays and captured classical values (nat / float variables and literals; whole classical
+arrays, which are affine - neither copyable nor linear - and so are threaded through and handed back
+like qubits; they are mixed with copyable captures in either order of use), may contain
 further calls before / after a nested block, and the enclosing code applies gates to the control
 qubits, control arrays and captured values after the block.  Programs are built so that the
 checker accepts them (controls pairwise distinct and not used in the body).
@@ -38,7 +42,8 @@ Checked, per program, after `hugr validate`:
   4 the final value of every qubit / array parameter of main (its implicit outputs) equals the
     term the source evaluates to - i.e. later uses read the block's outputs, not pre-block wires.
 
-Buckets: invalid_hugr.<class> / rejected.<title> / crash.<sig> / funcdefn.count / funcdefn.calls /
+Buckets: invalid_hugr.<class> (modifier_signature = a modifier op whose type arguments do not describe the
+function it wraps) / rejected.<title> / crash.<sig> / funcdefn.count / funcdefn.calls /
 chain.shape / chain.dagger / chain.power_exponent / chain.control_arity / chain.order /
 block.controls / block.body / writeback.control / writeback.captured / dataflow.other.
 """
@@ -68,10 +73,15 @@ QUBITS = [f"q{i}" for i in range(6)]
 ARRAYS = {"cs": 2, "ds": 3, "es": 2}
 NATS = ["n", "m"]
 FLOATS = ["x"]
-PARAMS = QUBITS + list(ARRAYS) + NATS + FLOATS
-#: gate -> parameter kinds (q qubit, a2/a3 arrays, n nat, f float)
-GATES = {"u": ["q"], "v": ["q"], "w": ["q", "q"], "rn": ["q", "n"], "rf": ["q", "f"], "a2": ["a2"], "a3": ["a3"]}
-GATE_SIG = {"q": "qubit", "n": "nat", "f": "float", "a2": "array[qubit, 2]", "a3": "array[qubit, 3]"}
+#: classical arrays: affine values (not copyable, droppable) - borrowed by main, captured by with bodies,
+#: handed to gates as whole (borrowed) arguments, never used as controls
+CARRAYS = {"ks": "kn", "fs": "kf"}
+PARAMS = QUBITS + list(ARRAYS) + NATS + FLOATS + list(CARRAYS)
+#: gate -> parameter kinds (q qubit, a2/a3 arrays of qubits, n nat, f float, kn/kf classical arrays)
+GATES = {"u": ["q"], "v": ["q"], "w": ["q", "q"], "rn": ["q", "n"], "rf": ["q", "f"], "a2": ["a2"], "a3": ["a3"],
+         "rk": ["q", "kn"], "rnk": ["q", "n", "kn"], "rkf": ["q", "kf", "f"], "rkk": ["q", "kf", "kn"]}
+GATE_SIG = {"q": "qubit", "n": "nat", "f": "float", "a2": "array[qubit, 2]", "a3": "array[qubit, 3]",
+            "kn": "array[nat, 2]", "kf": "array[float, 2]"}
 
 
 def active_exclusions():
@@ -97,7 +107,8 @@ def ctrl_size(m):
 
 
 def is_linear(name):
-    return name in QUBITS or name in ARRAYS
+    """not copyable: handed back by every function that borrows it (qubits, arrays of qubits, classical arrays)"""
+    return name in QUBITS or name in ARRAYS or name in CARRAYS
 
 
 def walk_withs(items, out=None, depth=0):
@@ -442,7 +453,8 @@ def render(case):
         f"@guppy.declare(unitary=True)\ndef {g}(" + ", ".join(f"a{i}: {GATE_SIG[k]}" for i, k in enumerate(ks))
         + ") -> None: ...\n" for g, ks in GATES.items())
     sig = ", ".join([f"{q}: qubit" for q in QUBITS] + [f"{a}: array[qubit, {n}]" for a, n in ARRAYS.items()]
-                    + [f"{n}: nat" for n in NATS] + [f"{x}: float" for x in FLOATS])
+                    + [f"{n}: nat" for n in NATS] + [f"{x}: float" for x in FLOATS]
+                    + [f"{c}: {GATE_SIG[k]}" for c, k in CARRAYS.items()])
     body = render_items(case["items"], "    ", [])
     return runner.PRELUDE + "\n" + decls + f"\n@guppy\ndef main({sig}) -> None:\n" + "\n".join(body) + "\n"
 
@@ -594,7 +606,9 @@ def evaluate(case, waive=frozenset()):
         if v.kind != "ok":
             info["got"] = "invalid"
             msg = v.message.split("Stack backtrace")[0].strip()
-            cls = H_CTRL if has_class(case, H_CTRL) and "Cannot connect array(" in msg else "invalid_hugr.other"
+            cls = H_CTRL if has_class(case, H_CTRL) and "Cannot connect array(" in msg else \
+                "invalid_hugr.modifier_signature" if "Conflicting signature" in msg and "Modifier in extension" in msg \
+                else "invalid_hugr.other"
             if cls in waive:
                 info["waived"] = cls
             else:
@@ -637,6 +651,8 @@ class Gen:
         gates = [g for g, ks in GATES.items()
                  if sum(k == "q" for k in ks) <= len(qs)
                  and all(any(ARRAYS[a] == int(k[1]) for a in arrs) for k in ks if k.startswith("a"))]
+        if not self.chance(35):  # gates taking a classical array in about a third of the calls
+            gates = [g for g in gates if not any(k in ("kn", "kf") for k in GATES[g])] or gates
         if not gates:
             return None
         g = self.pick(gates)
@@ -647,6 +663,8 @@ class Gen:
                 args.append(qq.pop())
             elif k in ("n", "f"):
                 args.append(self.classical(k))
+            elif k in ("kn", "kf"):
+                args.append([c for c, kk in CARRAYS.items() if kk == k][0])
             else:
                 args.append(self.pick([a for a in arrs if ARRAYS[a] == int(k[1])]))
         return {"k": "call", "g": g, "args": args}
@@ -761,6 +779,15 @@ def describe(case):
                         labels.add("body:classical_capture" if a[0] == "var" else "body:literal")
                     elif a in ARRAYS:
                         labels.add("body:captured_array")
+                    elif a in CARRAYS:
+                        labels.add("body:captured_classical_array")
+        # affine (classical array) and copyable (nat / float variable) captures of one body, in order of first use
+        uses = [("affine" if isinstance(a, str) else "copyable")
+                for it in w["body"] if it["k"] == "call" for a in it["args"]
+                if (isinstance(a, str) and a in CARRAYS) or (not isinstance(a, str) and a[0] == "var")]
+        if "affine" in uses and "copyable" in uses:
+            labels.add("body:affine+copyable_capture")
+            labels.add("capture_order:" + uses[0] + "_first")
     if len([1 for it in case["items"] if it["k"] == "with"]) > 1:
         labels.add("two_stacks")
     return sorted(labels), nontrivial
@@ -810,10 +837,11 @@ def worker(ctx):
 
 SPEC = harness.Spec(
     PROP, worker, replay,
-    rule=("random straight-line bodies of main(q0..q5, cs, ds, es, n, m, x): 0-2 gate calls, then 1-2 with stacks "
+    rule=("random straight-line bodies of main(q0..q5, cs, ds, es, n, m, x, ks, fs): 0-2 gate calls, then 1-2 with stacks "
           "of 1-4 modifiers (dagger / dagger() / control of 1-3 qubits / control(array) / power(literal|n|m), "
           "repetitions allowed) split at random into comma-form statements and nested blocks, bodies with 1-3 "
-          "declared-unitary gate calls on captured qubits, arrays, nat/float variables and literals (plus calls "
+          "declared-unitary gate calls on captured qubits, arrays, nat/float variables and literals and (about a third "
+          "of the calls) whole classical arrays ks: array[nat,2] / fs: array[float,2] (plus calls "
           "around a nested block), each stack followed by 1-4 gate calls on controls / captured values. Each "
           "program is compiled, validated and its HUGR compared with the symbolic evaluation of the source. "
           "non-trivial = some stack has >= 2 modifiers of >= 2 kinds; distinct = distinct program structure"),
@@ -824,7 +852,8 @@ SPEC = harness.Spec(
         "nested with statements are separate functions wrapped separately",
         "the port order of several control registers at the CallIndirect is left open (control registers commute); "
         "in/out positions must agree and hugr validate decides type consistency",
-        "calling convention: borrowed (linear) parameters of a function come back as outputs in parameter order; "
+        "calling convention: borrowed non-copyable parameters of a function (qubits, arrays of qubits, classical "
+        "arrays) come back as outputs in parameter order; "
         "main's HUGR inputs are its parameters in order",
         "declared gates with unitary=True stand for arbitrary unitary callees; the term of a call is determined by "
         "callee name, argument terms and output index (calls on disjoint wires are unordered in a dataflow graph)",
